@@ -53,6 +53,20 @@ ASSUMPTIONS = [
 CRLF = b'\r\n'
 
 
+def changed_key(sent, seen, default):
+    """the addresses differ only by a Unicode normalisation / dropped invisible characters: their own key"""
+    import unicodedata
+    def loose(x):
+        return ''.join(c for c in unicodedata.normalize('NFKD', x) if unicodedata.category(c) not in ('Cf', 'Mn', 'Mc', 'Me'))
+    try:
+        if (isinstance(sent, str) and isinstance(seen, str) and sent != seen
+                and (unicodedata.normalize('NFKC', sent) == unicodedata.normalize('NFKC', seen) or loose(sent) == loose(seen))):
+            return 'c06:address-code-points-changed'
+    except Exception:
+        pass
+    return default
+
+
 def _fail(ctx, key, case, what):
     """at most a few recorded failures per key (the list of the framework is capped), all counted"""
     n = ctx.dist.get('oracle-fail:' + key, 0)
@@ -629,10 +643,19 @@ def stream_quoted_exhaustive(ctx, maxlen):
 
 ATOMS = ['a', 'user', 'first.last', 'x+tag', "o'brien", '!#$%&', 'a-b_c', '{x}|~', '=?^`', '*', '/', '0', 'UPPER.lower.123']
 UATOMS = ['é', 'üser', '日本', 'naïve.café', '😀', 'ß', '߿', 'ࠀ', '￿', '\U00010000', '\U0010ffff', 'aé']
+# code point sequences that Unicode normalisation (NFC / NFD / NFKC / NFKD) would rewrite, and invisible
+# characters a "clean-up" would drop: an address is a sequence of code points and must arrive as that sequence
+UNSTABLE = ['e\u0301', 'a\u0308\u0301', 'a\u0301\u0323', 'q\u0307\u0323x', '\u212b', '\u2126', '\u212a', 'x\u212bx',
+            '\u1112\u1161\u11ab', '\u1100\u1161', '\ufb01', '\uff41\uff42', 'x\u00b2', '\u2460', '\u00bd',
+            'a\u200db', 'a\u200cb', '\u2764\ufe0f', 'a\ufe00', 'a\u200eb', '\u200fx', 'x\u202ey', '\u0344', '\u0958',
+            '\u00c5', '\ud55c', '\u1e9b\u0323', 'I\u0307']
+UATOMS = UATOMS + UNSTABLE
 QPIECES = ['a', ' ', '>', '<', '@', ',', ';', ':', '(', ')', '[', ']', '.', '..', '\\"', '\\\\', '\\ ', '\\>', '\\a', '!', '#', '=', '+', 'SIZE=1', ' AUTH=<>', '<>']
 UQPIECES = ['é', '日本', '😀']
+UQPIECES = UQPIECES + UNSTABLE + [' e\u0301 ', '\u212b>', '\\"\u2126']
 DOMS = ['example.com', 'x', 'a.b.c.example', 'a-b.example', 'x1.y2', 'EXAMPLE.Com', 'xn--bcher-kva.example', '[192.0.2.1]', '[IPv6:2001:db8::1]', '[x]']
 UDOMS = ['bücher.example', '例え.jp', 'é']
+UDOMS = UDOMS + ['e\u0301.example', 'x.\u212b.example', '\u1112\u1161\u11ab.kr', 'a\u0301\u0323-b.example', '\ufb01.example', 'a\u200db.example', '\u2126']
 
 
 def gen_addr(rng, utf8):
@@ -732,8 +755,12 @@ def stream_addresses(ctx, n):
                 key = 'c06:address-not-recovered'
                 if '\\"' in a:
                     key = 'c06:quoted-pair-in-address'
+                if rp[0] == 0:
+                    key = changed_key(a, rp[1], key)
                 _fail(ctx, key, dict(kind='codec', cmd=k, addr=a, exts=e, size=s, auth=au, wire=line),
-                         'sent %r, the server reads %r (expected address %r params %r)' % (line, rp, a, exp_params))
+                         'sent %r, the server reads %r (expected address %r params %r)%s' % (
+                             line, rp, a, exp_params,
+                             '' if rp[0] != 0 or rp[1] == a else '; code points %s -> %s' % (['U+%04X' % ord(c) for c in a], ['U+%04X' % ord(c) for c in rp[1]])))
     ctx.sample(dict(kind='address', examples=[j[2] for j in jobs[:6]]))
 
 
@@ -1245,6 +1272,11 @@ def judge_hop(ctx, case, out, transport):
             # the D16 symptom: an address with a quoted pair arrives cut short, everything else is intact
             if g['hdr'] == hd and g['body'] == wantb and d16_symptom(sent, seen):
                 key = 'c06:quoted-pair-in-address'
+            elif g['hdr'] == hd and g['body'] == wantb and len(sent) == len(seen) and all(
+                    a == b or changed_key(a, b, None) for a, b in zip(sent, seen)):
+                key = 'c06:address-code-points-changed'
+                diffs.append('code points: ' + '; '.join('%s -> %s' % (['U+%04X' % ord(c) for c in a], ['U+%04X' % ord(c) for c in b])
+                                                       for a, b in zip(sent, seen) if a != b))
             _fail(ctx, key, label, '; '.join(diffs))
         # reply code reported
         if want_code[0] == '2':
@@ -1353,6 +1385,15 @@ def probe_cases():
                               dict(sender='', rcpts=['\xe9@example.com'], data=SIMPLE_MSG % 1, verdict='550')]))
     out.append(dict(proto='smtp', exts=[], helo=True, reuse=False, size=10 ** 7,
                     msgs=[dict(sender='s@example.com', rcpts=['"a b"@example.com'], data=SIMPLE_MSG % 0, verdict='451')]))
+    # addresses whose code points a Unicode normalisation would rewrite (decomposed, singletons, jamo, compatibility
+    # characters, joiners, variation selectors, bidi marks): local part (atom and quoted) and domain labels
+    for proto in ('smtp', 'lmtp'):
+        for exts in (['PIPELINING', '8BITMIME', 'SMTPUTF8'], ['8BITMIME', 'SMTPUTF8']):
+            out.append(dict(proto=proto, exts=exts, helo=False, reuse=True, size=10 ** 7, msgs=[
+                dict(sender='e\u0301@example.com', rcpts=['\u212b.\u2126@\u212a.example', '"a\u0301\u0323 \ufb01"@e\u0301.example'],
+                     data=SIMPLE_MSG % 0, verdict=None),
+                dict(sender='"\u1112\u1161\u11ab"@\u1112\u1161\u11ab.kr', rcpts=['a\u200db@a\u200cb.example', '\uff41\uff42.x\u00b2@example.com',
+                     '\u2764\ufe0f.a\u200eb@example.com', 'q\u0307\u0323@example.com'], data=SIMPLE_MSG % 1, verdict='550')]))
     # outside the property (UTF-8 address, SMTPUTF8 not advertised): model and code must still agree that nothing is sent
     out.append(dict(proto='smtp', exts=['PIPELINING', '8BITMIME'], helo=False, reuse=True, size=10 ** 7,
                     msgs=[dict(sender='\xe9@example.com', rcpts=['r@example.com'], data=SIMPLE_MSG % 0, verdict=None),
@@ -1672,12 +1713,18 @@ def run_hops(ctx):
 def run_http_hops(ctx, n):
     rng = ctx.rng
     hang_seen = False
-    for i in range(-1, n):
+    for i in range(-2, n):
         reuse = i % 2 == 1
         if reuse and hang_seen:
             continue
         msgs = []
         for k in range(2):
+            if i == -2:       # normalisation-unstable addresses through the base64 headers
+                reuse = False
+                msgs.append(dict(sender=['e\u0301@\u212b.example', '"\u1112\u1161\u11ab \ufb01"@example.com'][k],
+                                 rcpts=[['\u2126@example.com', 'a\u0301\u0323@a\u200db.example'], ['\u2764\ufe0f@example.com']][k],
+                                 data=SIMPLE_MSG % k, verdict=None))
+                continue
             if i == -1:       # small fixed case first: two messages on one kept-alive connection
                 reuse = True
                 msgs.append(dict(sender='s@example.com', rcpts=['r%d@example.com' % k], data=SIMPLE_MSG % k, verdict=None))
@@ -1773,6 +1820,17 @@ def replay(ctx, case):
     kind = c.get('kind')
     if kind == 'codec':
         wire = c['wire']
+        if 'addr' in c and 'exts' in c:
+            # rebuild the command with the client of the tree under test
+            k0 = c.get('cmd', 'mail')
+            now = real_build(k0, c['exts'], c['addr'], c.get('size'), c.get('auth'))
+            print('address           : %r  %s' % (c['addr'], ' '.join('U+%04X' % ord(x) for x in c['addr'])))
+            if now is not None:
+                wire = now
+                got = real_pieces(k0, real_recv_command(now + CRLF)[1])
+                if got[0] == 0:
+                    print('server reads      : %r  %s' % (got[1], ' '.join('U+%04X' % ord(x) for x in got[1])))
+                print('same code points  :', got[0] == 0 and got[1] == c['addr'])
         print('client sends      :', wire)
         rc = real_recv_command(wire + CRLF)
         k = 'mail' if rc[0] == b'MAIL' else 'rcpt'
